@@ -70,6 +70,8 @@ def _run(scratch, log):
         return {"undecided_all": f"lost anchor: {e}", "functions": {}}
     except Exception as e:  # malformed source etc.
         return {"undecided_all": f"extraction error: {type(e).__name__}: {e}", "functions": {}}
+    # vacuity canary: a deliberately false lemma over the same vocabulary must be refuted on every run
+    text = text.replace("fn main() {}", "verus! {\npub proof fn canary_must_fail(h: &Heap, x: Ptr)\n    requires h.has(x), heap_closed(h),\n    ensures !reach(h, x, x),\n{\n}\n} // verus!\nfn main() {}")
     path = os.path.join(d, "cactusref_v.rs")
     open(path, "w").write(text)
     cmd = ["verus", path, "--output-json", "--time", "--multiple-errors", "50", "--triggers-mode", "silent"]
@@ -121,6 +123,9 @@ def _run(scratch, log):
             rlimit = any("Resource limit" in x or "rlimit" in x for x in msgs)
             funcs[name] = {"status": "discharged" if ok else ("undecided" if rlimit else "failed"), "time_s": round(f.get("time-micros", 0) / 1e6, 3),
                            "reason": "; ".join(msgs)[:1500] if not ok else "", "detail": "" if ok else diag[-2500:], "mode": f.get("mode:", "")}
+    can = funcs.pop("canary_must_fail", None)
+    if can is None or can["status"] != "failed":
+        return {"undecided_all": "verus vacuity canary was not refuted: the run proves nothing", "functions": {}, "tail": diag[-2000:]}
     vr = js["verification-results"]
     return {"functions": funcs, "verified": vr.get("verified"), "errors": vr.get("errors"), "rule_counts": counts,
             "cmd": "python3 lib/extract.py /repo F.rs && verus F.rs --output-json --time", "wall_s": round(secs, 1),
